@@ -270,9 +270,9 @@ def shape_kind_ok(e: dict, g: str) -> bool:
             # the 3.0 spelling of a nullable reference is allOf [$ref]: a new anonymous schema composed of the target;
             # the generator may name it (a model with the target's fields, judged field by field through C03)
             return g.startswith("ref:") or g.startswith("fwd:")
-        return g in (f"ref:{e['target']}", f"fwd:{e['target']}")
+        return g[:4] in ("ref:", "fwd:") and norm(g[4:]) == norm(e["target"])      # (class names are derived: HTTPLeaf -> HttpLeaf)
     if k == "ref_enum":
-        return g == f"enum:{e['target']}"
+        return g.startswith("enum:") and norm(g[5:]) == norm(e["target"])
     if k == "ref_alias":
         return g == "datetime"
     if k in ("free_form", "prim_union"):
